@@ -68,10 +68,16 @@ type xferSpec struct {
 	fwEOF     bool // failing writes report io.EOF (what a closed ssh channel does)
 	after     bool // C04: issue one more call after the transfer
 	noOffset  bool // do not judge the File offset (C01 speaks about bytes and counts; offsets are C12/C13)
+	short     int  // k+1: the first READ of chunk k is answered with one byte only although the file goes on (sequential reads ask for the rest)
+	failRest  bool // ... and the request for the rest of that chunk fails
 }
 
 func (s xferSpec) String() string {
-	return fmt.Sprintf("%s conc=%v P=%d K=%d file=%d req=%d off=%d fail=%v permute=%v cut=%d fw=%d fwEOF=%v", s.api, s.conc, s.P, s.K, s.fileLen, s.reqLen, s.off, s.fail, s.permute, s.cut, s.failWrite, s.fwEOF)
+	sh := ""
+	if s.short > 0 {
+		sh = fmt.Sprintf(" short-reply@chunk%d rest-fails=%v", s.short-1, s.failRest)
+	}
+	return fmt.Sprintf("%s conc=%v P=%d K=%d file=%d req=%d off=%d fail=%v permute=%v cut=%d fw=%d fwEOF=%v%s", s.api, s.conc, s.P, s.K, s.fileLen, s.reqLen, s.off, s.fail, s.permute, s.cut, s.failWrite, s.fwEOF, sh)
 }
 
 func pattern(n int, base byte) []byte {
@@ -113,6 +119,12 @@ func (s xferSpec) run(res *xferResult, envOut **cliEnv) {
 		e.peer.hpath["h1"] = "/f"
 		for _, i := range s.fail {
 			e.peer.FailOff[uint64(s.off+i*s.P)] = failMsg(i)
+		}
+		if s.short > 0 {
+			e.peer.ShortAt[uint64(s.off+(s.short-1)*s.P)] = 1
+			if s.failRest {
+				e.peer.FailOff[uint64(s.off+(s.short-1)*s.P+1)] = "fail@rest"
+			}
 		}
 		if s.cut >= 0 {
 			e.s2c.CutAfter = s.cut
@@ -208,6 +220,9 @@ func (s xferSpec) expected() (n int, errText string, offAfter int) {
 		if s.reqLen == 0 {
 			n, errText = 0, ""
 		}
+		if s.short > 0 && s.failRest && (s.short-1)*s.P+1 < n {
+			n, errText = (s.short-1)*s.P+1, "fail@rest"
+		}
 		offAfter = 0
 		if s.api == "Read" {
 			offAfter = s.off + n
@@ -219,6 +234,9 @@ func (s xferSpec) expected() (n int, errText string, offAfter int) {
 		}
 		if failAt >= 0 && failAt*s.P < n {
 			n, errText = failAt*s.P, failMsg(failAt)
+		}
+		if s.short > 0 && s.failRest && (s.short-1)*s.P+1 < n {
+			n, errText = (s.short-1)*s.P+1, "fail@rest"
 		}
 		offAfter = s.off + n
 	case "WriteAt", "Write":
@@ -487,6 +505,19 @@ func c13Specs(tier, group string) []xferSpec {
 // EOF inside the request together with a failing chunk (reads only).
 func c13EOFSpecs() []xferSpec {
 	var out []xferSpec
+	// a reply shorter than asked for in the middle of the file (a server may do that; it is not the end of the file):
+	// the sequential readers ask for the rest, which arrives or fails
+	for _, api := range []string{"ReadAt", "WriteTo"} {
+		for k := 0; k < 3; k++ {
+			for _, fr := range []bool{false, true} {
+				sp := xferSpec{api: api, conc: false, P: 2, K: 2, fileLen: 9, reqLen: 6, short: k + 1, failRest: fr, permute: true, cut: -1}
+				if api == "WriteTo" {
+					sp.fileLen = 6
+				}
+				out = append(out, sp)
+			}
+		}
+	}
 	for _, conc := range []bool{true, false} {
 		// request 8 bytes of a 5-byte file: chunks 0,1 full, chunk 2 short (1 byte), chunk 3 beyond EOF
 		out = append(out, xferSpec{api: "ReadAt", conc: conc, P: 2, K: 3, fileLen: 5, reqLen: 8, permute: true, cut: -1})
